@@ -262,6 +262,49 @@ func dispatchTotal(c *Ctx, emit *ssa.Function, label string, minArms int) {
 	// no statement is passed over before the dispatch either
 	if loopHead != nil {
 		body := loopBody(loopHead)
+		// every statement is visited: the loop is left in the middle only to report an error (a
+		// `break` or `return nil` after an `end` command drops the labels and commands behind it,
+		// which a goto or call may still reach)
+		{
+			k := 0
+			for _, b := range emit.Blocks {
+				if !body[b] || b == loopHead {
+					continue
+				}
+				for _, sc := range b.Succs {
+					if body[sc] {
+						continue
+					}
+					k++
+					// where does this way out lead? a failing return ends the emission with an error
+					okExit := false
+					seenB := map[*ssa.BasicBlock]bool{}
+					var scan func(x *ssa.BasicBlock, depth int) bool
+					scan = func(x *ssa.BasicBlock, depth int) bool {
+						if seenB[x] || depth > 3 {
+							return true
+						}
+						seenB[x] = true
+						if len(x.Instrs) > 0 {
+							if r, isRet := x.Instrs[len(x.Instrs)-1].(*ssa.Return); isRet {
+								return !isSuccessReturn(r)
+							}
+						}
+						if len(x.Succs) == 0 {
+							return true // panic
+						}
+						for _, y := range x.Succs {
+							if !scan(y, depth+1) {
+								return false
+							}
+						}
+						return true
+					}
+					okExit = scan(sc, 0)
+					c.Check(okExit, fmt.Sprintf("%s/left-only-with-an-error#%d", label, k), c.W.Pos(b.Instrs[len(b.Instrs)-1].Pos()), "the loop over the statements is left early only with an error", label+" leaves its statement loop in the middle and goes on successfully: the statements behind that point are never rendered, although a label among them may be jumped to")
+				}
+			}
+		}
 		isEmit := func(x ssa.Instruction) bool {
 			for _, e := range allEmitCalls {
 				if e == x {
